@@ -57,6 +57,16 @@ CHECKS = {
         note="xyz has no names / charges / bonds; unit tolerance 1e-5 relative because molli's Bohr entry has 6 digits.",
         technique="round-trip + metamorphic (unit re-expression) property testing with Hypothesis",
     ),
+    "C09": dict(
+        category="exploration",
+        text="The configuration matrix {load, loads, load_all, loads_all, dump, dumps} x formats {xyz, mol2, cdxml, obabel-only, nonsense} x source/target kind "
+             "{str path, Path, string, open stream} x fmt {explicit, from suffix} x otype {'molecule','ensemble', Structure, Molecule, ConformerEnsemble} x name {given, not} "
+             "x mode {a, w} is enumerated completely on bundled files and sampled on generated single / multi-frame inputs. Differential oracle: same type and snapshot as the "
+             "class method, list where promised, name honoured, text in the caller's stream which stays open, no leaked descriptor, ValueError for unsupported formats.",
+        design_ref="DESIGN.md section 5, C09",
+        note="openbabel cells cannot run (skipped, counted); cdxml compared on constitution only; loads_all for ensembles has no class-level counterpart.",
+        technique="exhaustive configuration-matrix enumeration + differential testing against class-level codecs",
+    ),
     "C02": dict(
         category="exploration",
         text="Bounded-exhaustive (all op sequences up to length 4/5 over a 14-letter alphabet on two raw UKVFile handles) plus random "
